@@ -11,6 +11,8 @@ import (
 	"golang.org/x/tools/go/ssa"
 )
 
+var tIntArray = types.NewArray(types.Typ[types.Int64], 0)
+
 var (
 	tMathInt  = types.Typ[types.UntypedInt]
 	tMathBool = types.Typ[types.UntypedBool]
@@ -122,6 +124,18 @@ func (env *Env) lookupIdent(name string) (SV, bool) {
 	}
 	if name == "nil" {
 		return SV{Typ: tNil, T: []Term{"0"}}, true
+	}
+	if env.fc != nil && !env.noFc {
+		if gv, ok := env.fc.unitCtx().ghostVars[name]; ok {
+			t := env.fc.ghostGet(env.st, "var."+name, gv.Sort, "0")
+			switch gv.Sort {
+			case SBool:
+				return mathBool(t), true
+			case SArrInt:
+				return SV{Typ: tIntArray, T: []Term{t}}, true
+			}
+			return mathInt(t), true
+		}
 	}
 	if env.fc != nil {
 		if v, ok := env.fc.ghostEnv[name]; ok {
@@ -613,6 +627,38 @@ func (env *Env) evalCall(x *ECall) SV {
 		argn(2)
 		return mathBool(env.fc.errContains(env.eval(x.Args[0]), env.eval(x.Args[1])))
 	}
+	switch x.Fn {
+	case "store":
+		argn(3)
+		a := env.eval(x.Args[0])
+		return SV{Typ: tIntArray, T: []Term{mkSto(a.T[0], env.evalInt(x.Args[1]), env.evalInt(x.Args[2]))}}
+	case "emptyArr":
+		argn(0)
+		return SV{Typ: tIntArray, T: []Term{constArray(SArrInt, "0")}}
+	}
+	if u, ok := e.spec.UFs[x.Fn]; ok {
+		argn(u.Arity)
+		var args []Term
+		var sorts []Sort
+		for _, a := range x.Args {
+			v := env.eval(a)
+			if len(v.T) != 1 {
+				env.fail("uf %s: argument %s is not a scalar", x.Fn, exprString(a))
+			}
+			if env.isBoolSV(v) {
+				env.fail("uf %s: boolean argument", x.Fn)
+			}
+			args = append(args, v.T[0])
+			sorts = append(sorts, SInt)
+		}
+		env.vc.declUF("uf_"+u.Name, sorts, u.Sort)
+		env.vc.usedUF[u.Name] = true
+		t := mkApp("uf_"+u.Name, args...)
+		if u.Sort == SBool {
+			return mathBool(t)
+		}
+		return mathInt(t)
+	}
 	if g, ok := e.spec.Ghosts[x.Fn]; ok {
 		argn(1)
 		k := env.eval(x.Args[0])
@@ -622,7 +668,7 @@ func (env *Env) evalCall(x *ECall) SV {
 			return mathBool(t)
 		}
 		if g.Sort == SArrInt {
-			return SV{Typ: types.NewArray(types.Typ[types.Int64], 0), T: []Term{t}}
+			return SV{Typ: tIntArray, T: []Term{t}}
 		}
 		return mathInt(t)
 	}
